@@ -32,7 +32,7 @@ type VerifC08Op struct {
 	K     int      `json:"k"`
 	Es    [][4]int `json:"es"` // [id, p, q, deleted]
 	Full  bool     `json:"full"`
-	Fault string   `json:"fault"` // none | sinkfail | sinkpanic | kill | diebefore | dieafter
+	Fault string   `json:"fault"` // none | sinkfail | sinkpanic | kill | diebefore | dieafter | srcfail
 	At    int      `json:"at"`
 }
 
@@ -97,6 +97,28 @@ func (s *verifC08Sink) processEntities(runner *Runner, entities []*server.Entity
 		}
 	}
 	return nil
+}
+
+// verifC08Source wraps the real source: the at-th call of ReadEntities of a run fails before reading
+type verifC08Source struct {
+	inner jobSource.Source
+	calls int
+	fault string
+	at    int
+}
+
+func (s *verifC08Source) GetConfig() map[string]interface{} { return s.inner.GetConfig() }
+func (s *verifC08Source) StartFullSync()                    { s.inner.StartFullSync() }
+func (s *verifC08Source) EndFullSync()                      { s.inner.EndFullSync() }
+func (s *verifC08Source) ReadEntities(ctx context.Context, since jobSource.DatasetContinuation, batchSize int,
+	processEntities func([]*server.Entity, jobSource.DatasetContinuation) error,
+) error {
+	i := s.calls
+	s.calls++
+	if s.fault == "srcfail" && i == s.at {
+		return errors.New("verif: scripted source failure")
+	}
+	return s.inner.ReadEntities(ctx, since, batchSize, processEntities)
 }
 
 func verifC08Value(code int) string {
@@ -308,6 +330,11 @@ func VerifC08Run(c VerifC08Case, dir string) (obs VerifC08Obs) {
 			return r, fmt.Errorf("sink is %T", spec.sink)
 		}
 		spec.sink = &verifC08Sink{inner: spec.sink, fault: op.Fault, at: op.At, runner: env.runner, jobID: jc.ID}
+		if op.Fault == "srcfail" {
+			// (the wrapper hides the *DatasetSource type from FullSyncPipeline: a LatestOnly source is then not put
+			// into fullsync mode, which for a local dataset selects the same ProcessChanges call)
+			spec.source = &verifC08Source{inner: spec.source, fault: op.Fault, at: op.At}
+		}
 		j := &job{dsm: env.dsm, id: jc.ID, title: jc.Title, pipeline: pl, schedule: "@every 2000s", runner: env.runner}
 		hits := map[string]int{}
 		verifhook.SetHandler(func(name string, arg string) {
